@@ -21,7 +21,8 @@ def extra(run, cases, oracle, tier):
             continue
         inv = {}
         for tetrad in ("quasi-Kinnersley", "other"):
-            rel, idx, F = GR.build_instance(c, oracle[ci], 4, opts={"tetrad": tetrad})
+            vopt = {"vacuum": True, "_noT": True} if c.get("vacuum") else {}
+            rel, idx, F = GR.build_instance(c, oracle[ci], 4, opts=dict(vopt, tetrad=tetrad))
             at = (...,) + idx
             l, k, m, mb = [v[at] for v in rel.null_vector_base()]
             e = [v[at] for v in rel.tetrad_base()]
@@ -57,7 +58,7 @@ def extra(run, cases, oracle, tier):
             run.traces += 1
             if tetrad == "other":
                 # fluid moving with respect to the slicing: the fluid-adapted tetrad must still be orthonormal for g
-                relm, idxm, _ = GR.build_instance(c, oracle[ci], 4, opts={"tetrad": tetrad, "_moving_fluid": True})
+                relm, idxm, _ = GR.build_instance(c, oracle[ci], 4, opts=dict(vopt, tetrad=tetrad, _moving_fluid=True))
                 em = [v[(...,) + idxm] for v in relm.tetrad_base()]
                 g4m = relm["gdown4"][(...,) + idxm]
                 gm = np.array([[em[a] @ g4m @ em[b] for b in range(4)] for a in range(4)])
